@@ -37,35 +37,53 @@ def _method(ctx, name):
 
 
 def _eq_fields(ctx) -> List[str]:
-    """Fields compared by Style.__eq__ (self._X == other._X conjuncts of the returned expression)."""
+    """Fields that are guaranteed equal whenever Style.__eq__ returns a value that can be true: on every control-flow path
+    (path normal form) the branch facts `self._x == other._x` plus the conjuncts of the returned expression; the intersection
+    over all paths that do not return the constant False."""
+    from ..yieldpaths import Unsupported, paths_of, resolve
     m = _method(ctx, "__eq__")
     other = m.params[1]
-    fields: List[str] = []
-    for r in returns_of(m.node):
-        v = r.value
-        if isinstance(v, ast.BoolOp) and isinstance(v.op, ast.And):
-            conj = v.values
-        elif isinstance(v, ast.Compare):
-            conj = [v]
-        else:
+    try:
+        P = [resolve(p_) for p_ in paths_of(m.node)]
+    except Unsupported as u:
+        raise AnalysisError(f"Style.__eq__: statement outside the path normal form ({u})")
+
+    def field_of(c) -> Optional[str]:
+        if isinstance(c, ast.Compare) and len(c.ops) == 1 and isinstance(c.ops[0], ast.Eq) and isinstance(c.left, ast.Attribute) and isinstance(c.comparators[0], ast.Attribute):
+            l, r_ = c.left, c.comparators[0]
+            if (is_attr_of(l, "self") and is_attr_of(r_, other) or is_attr_of(r_, "self") and is_attr_of(l, other)) and l.attr == r_.attr:
+                return l.attr
+        return None
+    per_path = []
+    for p_ in P:
+        rets = [e for e in p_ if e[0] == "return"]
+        if len(rets) != 1 or rets[0][1] is None:
             continue
+        v = ast.parse(rets[0][1], mode="eval").body
+        if isinstance(v, ast.Constant) and v.value is False:
+            continue
+        if isinstance(v, ast.Name) and v.id == "NotImplemented":
+            continue
+        fs = set()
+        for e in p_:
+            if e[0] == "cond" and e[2] is True:
+                c = ast.parse(e[1], mode="eval").body
+                f_ = field_of(c)
+                if f_:
+                    fs.add(f_)
+        if isinstance(v, ast.Constant) and v.value is True:
+            per_path.append(fs)
+            continue
+        conj = v.values if isinstance(v, ast.BoolOp) and isinstance(v.op, ast.And) else [v]
         for c in conj:
-            if (
-                isinstance(c, ast.Compare)
-                and len(c.ops) == 1
-                and isinstance(c.ops[0], ast.Eq)
-                and isinstance(c.left, ast.Attribute)
-                and isinstance(c.comparators[0], ast.Attribute)
-            ):
-                l, r_ = c.left, c.comparators[0]
-                if is_attr_of(l, "self") and is_attr_of(r_, other) and l.attr == r_.attr:
-                    fields.append(l.attr)
-                elif is_attr_of(r_, "self") and is_attr_of(l, other) and l.attr == r_.attr:
-                    fields.append(l.attr)
-                else:
-                    raise AnalysisError(f"Style.__eq__ conjunct not of the form self._x == other._x: {norm(c)}")
-            else:
-                raise AnalysisError(f"Style.__eq__ conjunct not understood: {norm(c)}")
+            f_ = field_of(c)
+            if f_ is None:
+                raise AnalysisError(f"Style.__eq__ conjunct not of the form self._x == other._x: {norm(c)}")
+            fs.add(f_)
+        per_path.append(fs)
+    if not per_path:
+        raise AnalysisError("Style.__eq__: no field comparisons found")
+    fields = sorted(set.intersection(*per_path))
     if not fields:
         raise AnalysisError("Style.__eq__: no field comparisons found")
     return fields
@@ -788,6 +806,64 @@ def _str_table_driven(ctx, strm, bits) -> int:
     return 0
 
 
+def _init_loop_form(ctx, init, bits, set_expr, attr_expr) -> bool:
+    """Second accepted shape of Style.__init__'s mask computation: one loop over the attribute arguments in bit order,
+    `for n, v in enumerate((bold, dim, ...)): if v is None: continue; bit = 1 << n; set |= bit; if v: attrs |= bit`,
+    the two accumulators (initialised to 0) stored into self._set_attributes / self._attributes.  True when this shape is present
+    (its obligations are then checked here), False when the masks are written as sums."""
+    from ..astutil import inline, single_defs
+    from ..yieldpaths import Unsupported, Enumerator, select
+    sm = init.module
+    if not (isinstance(set_expr.value, ast.Name) and isinstance(attr_expr.value, ast.Name)):
+        return False
+    sacc, aacc = set_expr.value.id, attr_expr.value.id
+    loops = [x for x in walk_local(init.node) if isinstance(x, ast.For) and isinstance(x.iter, ast.Call) and norm(x.iter.func) == "enumerate" and len(x.iter.args) == 1 and isinstance(x.target, ast.Tuple) and len(x.target.elts) == 2]
+    sd = single_defs(init.node)
+    lp = None
+    for x in loops:
+        t = inline(x.iter.args[0], sd)
+        if isinstance(t, (ast.Tuple, ast.List)) and all(isinstance(e, ast.Name) for e in t.elts):
+            lp, names = x, [e.id for e in t.elts]
+    if lp is None:
+        return False
+    idx, val = (norm(e) for e in lp.target.elts)
+    where = f"{sm.relpath}:{lp.lineno}"
+    n_ok = 0
+    for name, b in sorted(bits.items(), key=lambda kv: kv[1]):
+        ok = b < len(names) and names[b] == name
+        n_ok += 1
+        ctx.check(ok, init.fq, f"attribute tuple[{b}]", where, f"__init__: bit {b} <- argument `{name}`",
+                  f"__init__: position {b} of the attribute tuple is `{names[b] if b < len(names) else '<missing>'}` but bit {b} is read back as `{name}` by its _Bit descriptor")
+    ctx.check(len(names) == len(bits), init.fq, "attribute tuple", where, "one tuple entry per attribute bit", f"__init__: {len(names)} attribute arguments for {len(bits)} bits")
+    try:
+        en = Enumerator(init.node)
+        en.defs = {k: v for k, v in en.defs.items() if k not in (idx, val)}
+        bodies = [tuple(ev) for ev, _t in en.block(lp.body)]
+    except Unsupported as u:
+        raise AnalysisError(f"Style.__init__: mask loop uses a statement outside the path normal form ({u})")
+    BIT = f"1 << {idx}"
+
+    def sets(b, acc):
+        return [e for e in b if e[0] == "set" and e[1] == acc]
+    good = True
+    for scen, want_set, want_attr in (({f"{val} is None": True}, 0, 0), ({f"{val} is None": False, val: True}, 1, 1), ({f"{val} is None": False, val: False}, 1, 0)):
+        sel = select(bodies, scen)
+        if not sel:
+            good = False
+        for b in sel:
+            ss, aa = sets(b, sacc), sets(b, aacc)
+            if len(ss) != want_set or len(aa) != want_attr:
+                good = False
+            for e in ss + aa:
+                if e[2].replace(" ", "") not in (f"{e[1]}|{BIT}".replace(" ", ""), f"{e[1]}|({BIT})".replace(" ", "")):
+                    good = False
+    ctx.check(good, init.fq, "mask loop", where, "bit n of the set-mask is set iff argument n is not None, bit n of the value mask iff it is truthy",
+              "__init__: the mask loop does not set bit n of _set_attributes exactly when argument n is not None and bit n of _attributes exactly when it is truthy")
+    inits = {norm(x.targets[0]): norm(x.value) for x in walk_local(init.node) if isinstance(x, ast.Assign) and len(x.targets) == 1 and x.lineno < lp.lineno}
+    ctx.check(inits.get(sacc) == "0" and inits.get(aacc) == "0", init.fq, f"{sacc} = 0; {aacc} = 0", where, "both accumulators start empty", "__init__: the mask accumulators do not start at 0")
+    return True
+
+
 def r6_5(ctx):
     ctx.rule("R6.5", "one attribute<->bit mapping across the encodings: _Bit(n) descriptors, __init__ weight sums, __str__ bit tests and words, parse() vocabulary, _make_ansi_codes bit tests")
     bits = _bit_attrs(ctx)
@@ -804,7 +880,8 @@ def r6_5(ctx):
                 attr_expr = n
     if set_expr is None or attr_expr is None:
         raise AnchorVanished("Style.__init__ stores of _set_attributes/_attributes not found")
-    for which, node in (("_set_attributes", set_expr), ("_attributes", attr_expr)):
+    loop_form = _init_loop_form(ctx, init, bits, set_expr, attr_expr)
+    for which, node in (() if loop_form else (("_set_attributes", set_expr), ("_attributes", attr_expr))):
         elts = _sum_elements(node.value)
         if elts is None:
             raise AnalysisError(f"Style.__init__ {which} is not a sum over a tuple of weighted terms")
@@ -1027,7 +1104,9 @@ def r6_5(ctx):
     g = bitcls.method("__get__")
     if g is None:
         raise AnchorVanished("style:_Bit.__get__ not found")
-    src = norm(g.node)
+    from ..astutil import inline as _inl, single_defs as _sdf
+    _gsd = _sdf(g.node)
+    src = " ; ".join(norm(_inl(x, _gsd)) for x in walk_local(g.node) if isinstance(x, ast.expr) and isinstance(x, (ast.BinOp, ast.Compare, ast.IfExp)))
     ctx.check("_set_attributes & self.bit" in src and "_attributes & self.bit" in src, g.fq, "_Bit.__get__", g.where,
               "_Bit.__get__ tests the set-mask then the value bit", "_Bit.__get__ no longer reads both masks with self.bit")
 
